@@ -1,2 +1,10 @@
 import Aergo.Props.C10
-#print axioms Aergo.Props.C10.get_empty
+#print axioms Aergo.Props.C10.update_refines_map
+#print axioms Aergo.Props.C10.read_your_writes
+#print axioms Aergo.Props.C10.reachable_canonical
+#print axioms Aergo.Props.C10.history_independent
+#print axioms Aergo.Props.C10.root_depends_only_on_content
+#print axioms Aergo.Props.C10.delete_absent_noop
+#print axioms Aergo.Props.C10.update_idempotent
+#print axioms Aergo.Props.C10.content_determines_tree
+#print axioms Aergo.Props.C10.addShortcut_is_sorted_insert
